@@ -28,11 +28,18 @@ func init() {
 		add(&thorough, 2, 2, 0, 1, 3, 0)
 		add(&thorough, 0, 2, 1, 2, 1, 1)
 		add(&thorough, 1, 2, 0, 2, 2, 0)
+		bw := "a write accepted on a queued channel whose first transport Writev / Flush fails in the background sender, racing with 0-2 user Close calls; transport calls are scheduling points; ALL interleavings"
+		for _, c := range [][]int64{{1, 0, 1}, {2, 1, 1}, {1, 0, 0}, {1, 1, 0}} {
+			quick = append(quick, &Job{Pkg: "", Func: "ZZ_C05_WriteFaultClose", Args: c, Bounds: bw})
+		}
+		for _, c := range [][]int64{{1, 1, 2}, {2, 0, 2}} {
+			thorough = append(thorough, &Job{Pkg: "", Func: "ZZ_C05_WriteFaultClose", Args: c, Bounds: bw})
+		}
 		Specs["C05"] = &Spec{
 			Jobs: jobsBy(quick, thorough), Labels: labelFilter("c05-"),
-			MustReach: []string{"c05-closed", "c05-open", "c05-user-close-won"},
+			MustReach: []string{"c05-closed", "c05-open", "c05-user-close-won", "c05-write-fault-closed", "c05-user-close-beat-write-fault"},
 			Bounds: map[string]string{
-				"quick":    "up to 2 concurrent user Close calls plus a Close from a read / active handler, read failures of all four kinds after 0-2 bytes, synchronous and queue-2 channels",
+				"quick":    "up to 2 concurrent user Close calls plus a Close from a read / active handler, read failures of all four kinds after 0-2 bytes, synchronous and queue-2 channels; a failing Writev / Flush in the background sender racing with 0-1 user Close",
 				"thorough": "3 concurrent Close calls; combinations of handler close with failing reads",
 			},
 			Outside:     "holder-driven shutdown (C13); a swallowed timeout read error with no Close at all (the read loop then retries forever by design)",
@@ -69,6 +76,25 @@ func init() {
 			}
 			n++
 		}
+		// exception handler in front of the failing handler (exmode 3 forwarding, 4 swallowing): one job per entry in quick
+		for i, c := range combs {
+			for pval := int64(0); pval < 5; pval++ {
+				for _, exmode := range []int64{3, 4} {
+					pos := (pval + exmode) % 2
+					if c.entry == 3 {
+						pos = 0
+					}
+					if c.entry == 4 {
+						pos = 1
+					}
+					l := &thorough
+					if (int64(i)+pval)%5 == 0 {
+						l = &quick
+					}
+					addP(l, c.entry, c.on, pval, exmode, pos, ((pval+exmode)%2)*2)
+				}
+			}
+		}
 		bf := "the k-th transport Write/Writev (what=0) or Flush (what=1) fails, or the transport Read fails (what=2), on synchronous and queued channels, with three writes issued; exception handler absent / forwarding / swallowing"
 		// (q, what, k, exmode)
 		for _, c := range [][]int64{{2, 0, 1, 0}, {2, 1, 1, 1}, {1, 0, 2, 2}, {0, 0, 1, 0}, {0, 1, 2, 1}, {0, 2, 1, 0}, {2, 2, 1, 2}} {
@@ -87,8 +113,8 @@ func init() {
 			Jobs: jobsBy(quick, thorough), Labels: labelFilter("c07-"),
 			MustReach: []string{"c07-bomb-fired", "c07-closed", "c07-open", "c07-fault-closed", "c07-fault-reported", "c07-close-then-panic-done"},
 			Bounds: map[string]string{
-				"quick":    "one third of the 90 (entry, event, panic value, exception-handler mode) combinations with two candidate handler positions; 7 transport-fault scenarios",
-				"thorough": "all 90 combinations; 6 more transport-fault scenarios",
+				"quick":    "one third of the 90 (entry, event, panic value, exception-handler mode) combinations with two candidate handler positions, plus 12 of the 60 combinations with the exception handler in front of the failing handler; 7 transport-fault scenarios",
+				"thorough": "all 150 combinations; 6 more transport-fault scenarios",
 			},
 			Outside:     "exception handlers that themselves panic (excluded by the statement); the idle-timer entry point is decided in C20; pipelines longer than 4 handlers",
 			Assumptions: Specs["C01"].Assumptions,
